@@ -908,6 +908,20 @@ fn assemble(f: &mut Forest, pieces: &[Id], sent: Id) -> Option<Id> {
     if next == pieces.len() { Some(t) } else { None }
 }
 
+/// call-site class of a history: does any added tree (retained or undone)
+/// contain the sentinel more than once; otherwise was anything undone
+fn history_class(pieces: &[Piece], steps: &[Step]) -> &'static str {
+    let multi = steps.iter().any(|s| matches!(s, Step::Add(i) if pieces[*i].sentinels > 1));
+    let undo = steps.iter().any(|s| matches!(s, Step::Undo));
+    if multi {
+        "repeated-sentinel-in-one-added-tree"
+    } else if undo {
+        "after-undo"
+    } else {
+        "plain"
+    }
+}
+
 #[derive(Clone)]
 enum Step {
     Add(usize),
@@ -1106,10 +1120,7 @@ fn check19(ctx: &mut Ctx, r: &mut Rng) {
             if !f.eq_node(expect, &b, m) {
                 let mut g = Forest::new();
                 let got = g.import(&b, m);
-                let mut sig = "incremental-output-decodes-to-wrong-tree".to_string();
-                let multi = pieces.iter().any(|p| p.sentinels > 1);
-                let undo = steps.iter().any(|s| matches!(s, Step::Undo));
-                sig += if multi && undo { "/repeated-sentinel+undo" } else if multi { "/repeated-sentinel" } else if undo { "/after-undo" } else { "/plain" };
+                let sig = format!("incremental-output-wrong/{}", history_class(&pieces, &steps));
                 ctx.violation(&sig, json!({"history": describe(&f), "output": hex::encode(&final_bytes), "expected_tree": hex::encode(f.classic_bytes(expect)),
                     "decoded_tree": hex::encode(g.classic_bytes(got))}));
             }
@@ -1118,7 +1129,8 @@ fn check19(ctx: &mut Ctx, r: &mut Rng) {
             }
         }
         Err(e) => {
-            ctx.violation("incremental-output-does-not-decode", json!({"history": describe(&f), "output": hex::encode(&final_bytes), "error": e.to_string()}));
+            let sig = format!("incremental-output-wrong/{}", history_class(&pieces, &steps));
+            ctx.violation(&sig, json!({"history": describe(&f), "output": hex::encode(&final_bytes), "decode_error": e.to_string()}));
         }
     }
     let has_ref = final_bytes.contains(&0xfe);
